@@ -167,8 +167,8 @@ package bcl
 //@   ensures [C20] exactly_the_run_of_white_space_is_skipped: l.start == l.pos && l.posShift + l.pos == skipSpaces(g.ev_src_inputs, old(l.posShift + l.pos))
 //@ func lexLineComment
 //@   implements stateFn
-//@   ensures [C20] a_comment_produces_no_token: g.ev_send_tokens == old(g.ev_send_tokens) && result == fn("lexStart")
-//@   ensures [C20] a_comment_ends_at_the_next_cr_or_lf_and_nowhere_else: l.start == l.pos && l.posShift + l.pos == commentEnd(g.ev_src_inputs, old(l.posShift + l.pos))
+//@   ensures [C20,C17] a_comment_produces_no_token: g.ev_send_tokens == old(g.ev_send_tokens) && result == fn("lexStart")
+//@   ensures [C20,C17,C07] a_comment_ends_at_the_next_cr_or_lf_and_nowhere_else: l.start == l.pos && l.posShift + l.pos == commentEnd(g.ev_src_inputs, old(l.posShift + l.pos))
 //@   loop 1 invariant invs(l) && !g.lx_fin && !g.lx_err && g.ev_send_tokens == old(g.ev_send_tokens)
 //@   loop 1 invariant [C20] commentEnd(g.ev_src_inputs, l.posShift + l.pos) == commentEnd(g.ev_src_inputs, old(l.posShift + l.pos))
 //@   use utf8_size
